@@ -1,4 +1,5 @@
 import LyModel.Val.Model
+import LyModel.Generated.ValExt
 /-!
 # `identityref` (component `Val`, property C03)
 
@@ -91,8 +92,8 @@ def storeIdWith (allBases : Bool) (c : IdCtx) (bases : List Ident) (pm : PrefixM
         | none => .error .NotFound
         | some d => if checkBase allBases c bases d.id then .ok d.id else .error .NotDerived
 
-/-- the tree the model is compared with: F410 present -/
-def storeId := storeIdWith false
+/-- the tree the model was generated from (`Generated.identBaseAll` is read off `identityref_check_base`) -/
+def storeId := storeIdWith Generated.identBaseAll
 
 /-- canonical value and LYB value: `module:name` -/
 def canonId (i : Ident) : Bytes := i.mod ++ 58 :: i.name
@@ -106,7 +107,12 @@ def printId (rev : List (Bytes × Bytes)) (i : Ident) : Bytes :=
 /-- `lyplg_type_compare_identityref`: same `lysc_ident` -/
 def cmpEqId (a b : Ident) : Bool := a == b
 
-/-- `lyplg_type_sort_identityref`: `strcmp(ident->name)` — the module is not looked at -/
-def sortId (a b : Ident) : Int := strcmp a.name b.name
+/-- `lyplg_type_sort_identityref`: `strcmp(ident->name)`; `byModule = false` (the pinned tree) does not look at the module, the
+    repaired code compares the module names when the identity names are equal -/
+def sortIdWith (byModule : Bool) (a b : Ident) : Int :=
+  let c := strcmp a.name b.name
+  if byModule && c == 0 then strcmp a.mod b.mod else c
+
+def sortId := sortIdWith Generated.identSortModule
 
 end LyModel.Val.Ident
